@@ -8,7 +8,7 @@ import z3
 # S1 - flat closed CFGs
 
 
-def s1_space(N: int, entry: int | None = None, max_edges: int | None = None, skeleton=None, tag: str = "", dag: bool = False):
+def s1_space(N: int, entry: int | None = None, max_edges: int | None = None, skeleton=None, tag: str = "", dag: bool = False, require_edges=None):
     """Closed CFG over N blocks.
 
     Block i has ordered successor slots a_i, b_i in {-1, 0..N-1}; -1 = absent,
@@ -65,8 +65,12 @@ def s1_space(N: int, entry: int | None = None, max_edges: int | None = None, ske
         # Hamiltonian skeleton: perm[k] -> perm[k+1] is an edge for all k
         for k in range(len(skeleton) - 1):
             cs.append(edge(skeleton[k], skeleton[k + 1]))
+    for (i, j) in (require_edges or []):
+        cs.append(edge(i, j))
     aux = {"N": N, "A": A, "B": B, "e": e}
     cube_vars = [e, A[0], B[0], A[1], B[1]] if N >= 4 else [e, A[0]]
+    if require_edges and N >= 6:
+        cube_vars = [A[3], B[3], A[4], B[4]]
     return z3.And(cs), cube_vars, aux
 
 
